@@ -115,6 +115,9 @@ def compare_model(model, out, fields_as="ordered", minmax="rows", rtol_minmax=0.
     if out["max_level"] != len(model.levels) - 1:
         v.append(f"finest level {out['max_level']} != expected {len(model.levels) - 1}")
         return v
+    # format well-formedness: one refinement ratio per finer level at least (AMReX writes exactly that many or more)
+    if len(out["factors"]) < out["max_level"] or any(f != "2" for f in out["factors"]):
+        v.append(f"refinement-ratio line {out['factors']} does not give the ratio 2 for each of the {out['max_level']} finer levels")
     for l, mlev in enumerate(model.levels):
         olev = out["levels"][l]
         if out["dx"][l] != model.dx[l]:
